@@ -17,7 +17,7 @@ P("C13",
              "c13_notify_never_panics, c13_runs_monotone; regression lemmas for the mutations 'guard not reset in Handle' and "
              "'<= -> <', and the MaxUint64 non-dedup witness. Tie: scripted runs (1-3 components, optionally wired through real messaging ports and a real noc/directconnection so that notifications come from real deliveries/retrievals; processors issuing requests on "
              "themselves and each other, primary/secondary environment events, earlier/later/equal/repeated requests, past requests) "
-             "projected per component and replayed step by step; holds_on re-evaluates both clauses on the observed history; c13_model_agreement_implies_property proves check_case -> holds_on.",
+             "projected per component (a run = an invocation of the processor, recorded by the processor itself, not the dispatch of a timer event) and replayed step by step; directed and random histories include wake requests of every kind (real Deliver -> NotifyRecv, real outgoing retrieval -> NotifyPortFree, ScheduleWakeNow, ScheduleWakeAt(now)) that reach a component at instant T after its processor already ran at T — from a poked zero-latency primary/secondary peer, a peer component handled later in the instant, or the connection's secondary tick — with and without a later wake-up pending (the processor must run again at T); holds_on re-evaluates both clauses on the observed history; c13_model_agreement_implies_property proves check_case -> holds_on.",
   level_note="Trusted: Coq kernel + vm_compute; the Go harness (engine wrapper, hooks, projection); the hand-written model of "
              "eventdriven.go. The engine contract is the legality condition of histories (checked by the replay on every real run, "
              "proved for the engine model under C01). Checkpoint save/load of the guard is out of scope (C06).",
